@@ -248,6 +248,102 @@ def strict_mesh_bound(repo, col):
 
 
 # ---------------------------------------------------------------------
+def validator_same_entry(repo, col):
+    """A chunk is on the grid if ONE entry of chunk_sizes fits all three
+    axes.  Iterations over the chunk_sizes list must therefore use the whole
+    entry (unpack three components / index 0, 1 and 2); projecting the list
+    onto one axis (`[cs[axis] for cs in chunk_sizes]`) lets a chunk that mixes
+    rows of chunk_sizes through."""
+    rule = "E-BOUND.validator.same-entry"
+    top = repo.func("precomputed_io", "PrecomputedIO.validate_chunk_coords")
+
+    def uses_of(fn, name, depth=0):
+        """('whole'|'projected'|'unknown') for how `name` (one chunk_sizes
+        entry) is consumed in fn."""
+        consts, projected, whole = set(), False, False
+        for n in walk_local(fn.node):
+            if isinstance(n, ast.Assign) and isinstance(n.value, ast.Name) and \
+                    n.value.id == name and isinstance(n.targets[0], (ast.Tuple,
+                                                                      ast.List)) \
+                    and len(n.targets[0].elts) == 3:
+                whole = True
+            if isinstance(n, ast.Subscript) and isinstance(n.value, ast.Name) \
+                    and n.value.id == name:
+                c = const_int(n.slice)
+                if c is not None:
+                    consts.add(c)
+                elif not isinstance(n.slice, ast.Slice):
+                    projected = True
+            if isinstance(n, ast.Call) and depth < 2:
+                h = resolve_local_call(fn, n)
+                if h is None:
+                    continue
+                hp = list(h.params)
+                if hp and hp[0] in ("self", "cls") and isinstance(
+                        n.func, ast.Attribute):
+                    hp = hp[1:]
+                for i, a in enumerate(n.args):
+                    if isinstance(a, ast.Name) and a.id == name and i < len(hp):
+                        r = uses_of(h, hp[i], depth + 1)
+                        if r == "whole":
+                            whole = True
+                        elif r == "projected":
+                            projected = True
+                for k in n.keywords:
+                    if isinstance(k.value, ast.Name) and k.value.id == name \
+                            and k.arg in hp:
+                        r = uses_of(h, k.arg, depth + 1)
+                        if r == "whole":
+                            whole = True
+                        elif r == "projected":
+                            projected = True
+            # zip(entry, ...) / for c in entry: element-wise over all axes
+            if isinstance(n, ast.Call) and call_name(n) in ("zip", "enumerate",
+                                                            "tuple", "list") \
+                    and any(isinstance(a, ast.Name) and a.id == name
+                            for a in n.args):
+                whole = True
+        if whole or {0, 1, 2} <= consts:
+            return "whole"
+        if projected or (consts and len(consts) < 3):
+            return "projected"
+        return "unknown"
+
+    found = 0
+    for fn in helper_closure(top):
+        for n in walk_local(fn.node):
+            it, tgt = None, None
+            if isinstance(n, ast.For):
+                it, tgt = n.iter, n.target
+            elif isinstance(n, ast.comprehension):
+                it, tgt = n.iter, n.target
+            if it is None or not isinstance(tgt, ast.Name):
+                continue
+            src = norm(it)
+            if isinstance(it, ast.Name):
+                src = " ".join(norm(d.value) for d in local_defs(fn.node).get(
+                    it.id, []) if d.value is not None) or src
+            if "['chunk_sizes']" not in src:
+                continue
+            found += 1
+            r = uses_of(fn, tgt.id)
+            col.add(rule, fn, "for %s in %s" % (tgt.id, norm(it)[:40]),
+                    r != "projected",
+                    "one chunk_sizes entry is tested on all three axes"
+                    if r == "whole" else
+                    "the chunk_sizes list is projected onto a single axis "
+                    "(`%s[...]` with a per-axis index): each axis may then "
+                    "match a different row, so coordinates that belong to no "
+                    "single chunk grid are accepted" % tgt.id
+                    if r == "projected" else "use of the entry not recognised",
+                    node=n if isinstance(n, ast.For) else it,
+                    undecided=r == "unknown")
+    if not found:
+        col.add(rule, top, "iteration over chunk_sizes", True,
+                "no iteration over info['chunk_sizes'] recognised",
+                undecided=True)
+
+
 def validator_complete(repo, col):
     """validate_chunk_coords: every component used; lower corner bounded by
     0 and the size; lattice test; upper corner = min(lo + cs, size)."""
